@@ -16,7 +16,7 @@ func init() {
 		Run: ruleGuardErrors,
 	})
 	register(&Rule{
-		ID: "REVERT", Props: []string{"C03", "C09", "C04"}, Floor: 8,
+		ID: "REVERT", Props: []string{"C03", "C09", "C04", "C07", "C08"}, Floor: 8,
 		Doc: "path accounting in writeTxnState.modify/delete: on every path to an error return the revision counter is back at the value loaded before the increment, the primary index mutation is compensated and no other index was touched; every successful write increments the revision exactly once, the no-op delete not at all; the stored object carries the post-increment revision; the rejection test is an exact inequality on the guard revision",
 		Run: ruleRevert,
 	})
